@@ -230,6 +230,20 @@ Theorem C10_gen_matches_handwritten :
                     end) wire_layouts = true.
 Proof. vm_compute. reflexivity. Qed.
 
+
+(* T1 coverage: exactly these message types / failure codes have a generated description
+   (and exactly these are left to the harness predicates).  A source edit that pushes a
+   message out of the translator's fragment changes a generated table and breaks this
+   theorem; props/c10.py then searches the affected types directly. *)
+Theorem C10_gen_coverage :
+  map fst gen_layouts = [1; 2; 17; 18; 19; 115; 131; 134; 135; 256; 257; 259; 262; 513; 777] /\
+  map fst gen_tlvmsgs = [16; 32; 33; 34; 35; 36; 38; 39; 40; 41; 111; 113; 117; 128; 130; 132; 133; 258; 263; 265] /\
+  map fst gen_optmsgs = [136] /\
+  map fst gen_fdescs = [17; 18; 19; 21; 23; 4103; 4107; 4108; 4109; 4110; 4116; 8194; 16392; 16393; 16394; 16399; 16400; 16406; 24578; 24579; 32769; 49156; 49157; 49158; 49176] /\
+  map fst unsupported_messages = [260; 261; 264; 267; 269; 271] /\
+  map fst unsupported_failures = [].
+Proof. vm_compute. repeat split; reflexivity. Qed.
+
 (* onion failure packets: every valid failure value of a code whose payload
    layout is in the table encodes to exactly 260 bytes (2 + 256 + 2: length,
    message padded to 256, pad length) that DecodeFailure maps back to it *)
